@@ -679,9 +679,16 @@ class Executor:
         ev = self.emit("store", st, arr=a, index=idx, value=v, aug=aug, view=view, epoch=a.epoch)
         a.stores.append(ev)
 
+    def decide_test(self, test, frame, node) -> bool:
+        """Decide a branch test.  A syntactic `not X` is decided through X, so that `if not X: B else: A` leaves the same
+        facts on its paths as `if X: A else: B` (rules read facts in the orientation of the un-negated source test)."""
+        if isinstance(test, ast.UnaryOp) and isinstance(test.op, ast.Not):
+            return not self.decide_test(test.operand, frame, node)
+        c = self.truth(self.ev(test, frame), node)
+        return self.decide(c, node)
+
     def st_If(self, st, frame):
-        c = self.truth(self.ev(st.test, frame), st)
-        if self.decide(c, st):
+        if self.decide_test(st.test, frame, st):
             self.exec_block(st.body, frame)
         else:
             self.exec_block(st.orelse, frame)
@@ -1146,8 +1153,7 @@ class Executor:
         return ClosureV(e, frame, frame.func, "<lambda>")
 
     def ex_IfExp(self, e, frame):
-        c = self.truth(self.ev(e.test, frame), e)
-        if self.decide(c, e):
+        if self.decide_test(e.test, frame, e):
             return self.ev(e.body, frame)
         return self.ev(e.orelse, frame)
 
